@@ -316,35 +316,77 @@ def r_tile_sizes(rule, root=None):
         rule.bad("pixel_offset", "pixel_offset must be (x mod root) + (y mod root) * root", A.where(fn))
 
 
+def _assembly_common(rule, fn, label, path, write_ok):
+    """image assembly read with lets folded: for every root tile, rows j outer and columns i inner over
+    0..tile_sizes[0]; pixel (y, x) = (j + corner.y, i + corner.x); written only inside the image
+    (y < height from the image size, x < width); the flat index advances once per pixel."""
+    body = A.inline_lets_deep(fn["body"])
+    loops = [("j", "0..tile_sizes[0]"), ("i", "0..tile_sizes[0]")]
+    W = "(render_config.image_size.width()asusize)"
+    H = "(render_config.image_size.height()asusize)"
+    bumps = [s for s, _b in A.stmts_in_loops(body, loops, "(index+=1);") if not (A.enclosing_conds(body, s) or [])]
+    if bumps:
+        rule.ok("%s assembly: rows outer, columns inner over the root tile; the flat index advances once per pixel" % label, file=path, line=fn["ln"])
+    else:
+        rule.bad("assembly|%s|index advances once per p" % label, "%s image assembly: `index += 1` must run once per (row j, column i) of 0..tile_sizes[0], unconditionally" % label, A.where(fn))
+        return None, None, None
+    writes = []
+    for s in A.all_stmts(body):
+        e = A.strip(A.stmt_expr(s) or {})
+        if e.get("k") == "Assign" and A.unparse(e["left"]).replace(" ", "").startswith("image["):
+            b = A.enclosing_binders(body, s) or []
+            if len(b) >= 2 and [A.iter_source(x[1]) for x in b[-2:]] == ["0..tile_sizes[0]", "0..tile_sizes[0]"]:
+                writes.append((s, e, b[-2][0], b[-1][0]))
+    if not writes:
+        rule.bad("assembly|%s|writes" % label, "%s image assembly: no write to `image[..]` inside the row / column loops" % label, A.where(fn))
+        return None, None, None
+    okc = True
+    for s, e, jn, in_ in writes:
+        y = "(%s+tile.corner.y)" % jn
+        x = "(%s+tile.corner.x)" % in_
+        conds = set()
+        for c in A.enclosing_conds(body, s) or []:
+            conds |= {c}
+        allc = set()
+        for n in A.walk(body):
+            pass
+        # the guard may be one `a && b` or nested ifs: collect conjuncts of every enclosing condition
+        cj = set()
+        for i_ in A.find(body, "If"):
+            if any(n is s for n in A.walk(i_["then"])):
+                cj |= A.conjuncts(i_["cond"])
+        if "(%s<%s)" % (y, H) not in cj or "(%s<%s)" % (x, W) not in cj:
+            okc = False
+            rule.bad("assembly|%s|writes guarded by the imag" % label, "%s image assembly: `%s` is not guarded by both `y < height` and `x < width` (y = j + corner.y, x = i + corner.x, width / height from the image size); guards seen: %s" % (label, A.unparse(e)[:40], sorted(cj)), A.where(fn))
+        elif not write_ok(A.unparse(e["left"]).replace(" ", ""), y, x, W):
+            okc = False
+            rule.bad("assembly|%s|target" % label, "%s image assembly writes `%s`; expected the pixel at row y = %s, column x = %s" % (label, A.unparse(e["left"]), y, x), A.where(fn))
+    if okc:
+        rule.ok("%s assembly: writes guarded by the image bounds, at (row, column)" % label)
+        rule.ok("%s assembly: width/height from the image size" % label)
+    return body, writes, (W, H)
+
+
 def r_assembly_pixel(rule, root=None):
     fn = A.find_fn(PIX, "render", root=root)
-    t = txt(fn["body"])
-    need = [
-        ("width/height from the image size", "letwidth=(render_config.image_size.width()asusize);letheight=(render_config.image_size.height()asusize);"),
-        ("rows outer, columns inner over the root tile", "forjin0..tile_sizes[0]{lety=(j+tile.corner.y);foriin0..tile_sizes[0]{letx=(i+tile.corner.x);"),
-        ("writes guarded by the image bounds, at (row, column)", "if((y<height)&&(x<width)){image[(y,x)]=data[index];}(index+=1);"),
-        ("largest dimension bounds the tile list", "letmax_size=(render_config.width().max(render_config.height())asusize);"),
-    ]
-    for what, f in need:
-        if f in t:
-            rule.ok("pixel assembly: %s" % what, file=PIX, line=fn["ln"])
+    body, writes, _wh = _assembly_common(rule, fn, "pixel", PIX, lambda left, y, x, W: left == "image[(%s,%s)]" % (y, x))
+    if writes:
+        if all(A.unparse(e["right"]).replace(" ", "") == "data[index]" for _s, e, _j, _i in writes):
+            rule.ok("pixel assembly: each pixel takes the tile's value at the flat index")
         else:
-            rule.bad("assembly|pixel|%s" % what[:24], "2D image assembly: %s (`%s` not found)" % (what, f[:60]), A.where(fn))
+            rule.bad("assembly|pixel|source", "2D image assembly must copy `data[index]`", A.where(fn))
+    t = txt(fn["body"])
+    f = "letmax_size=(render_config.width().max(render_config.height())asusize);"
+    if f in t:
+        rule.ok("pixel assembly: largest dimension bounds the tile list", file=PIX, line=fn["ln"])
+    else:
+        rule.bad("assembly|pixel|largest dimension bounds", "2D image assembly: largest dimension bounds the tile list (`%s` not found)" % f[:60], A.where(fn))
 
 
 def r_assembly_voxel(rule, root=None):
     fn = A.find_fn(VOX, "render", root=root)
+    _assembly_common(rule, fn, "voxel", VOX, lambda left, y, x, W: left == "image[((%s*%s)+%s)]" % (y, W, x))
     t = txt(fn["body"])
-    need = [
-        ("rows outer, columns inner over the root tile", "forjin0..tile_sizes[0]{lety=(j+tile.corner.y);foriin0..tile_sizes[0]{letx=(i+tile.corner.x);"),
-        ("writes guarded by the image bounds, row-major", "if((x<width)&&(y<height)){leto=((y*width)+x);"),
-        ("index advances once per pixel", "}(index+=1);}}"),
-    ]
-    for what, f in need:
-        if f in t:
-            rule.ok("voxel assembly: %s" % what, file=VOX, line=fn["ln"])
-        else:
-            rule.bad("assembly|voxel|%s" % what[:24], "3D image assembly: %s (`%s` not found)" % (what, f[:60]), A.where(fn))
     # clamp consistency: compare with and assign the same quantity
     ifs = [i for i in A.find(fn["body"], "If") if "GeometryPixel" in txt(i["then"]) and txt(A.strip(i["cond"]).get("left")) == "out[index].depth" and "image[" not in txt(i["cond"])]
     if len(ifs) != 1:
@@ -377,18 +419,33 @@ def r_assembly_voxel(rule, root=None):
 def r_samples_pixel(rule, root=None):
     fn = worker_fn(PIX, "render_tile_pixels", root)
     t = txt(fn["body"])
+    # facts with loop context (statement order inside a loop body and extra statements are irrelevant;
+    # `for` loops and iterator chains read alike): rows j outer, columns i inner over 0..tile_size
+    body = A.inline_lets_deep(fn["body"])
+    nest = [("j", "0..tile_size"), ("i", "0..tile_size")]
     need = [
-        ("x sample = corner.x + i", "self.scratch.x[index]=((tile.corner[0]+i)asf32);"),
-        ("y sample = corner.y + j", "self.scratch.y[index]=((tile.corner[1]+j)asf32);"),
-        ("z sample = the slice height", "self.scratch.z[index]=self.z;"),
-        ("rows outer, columns inner when filling", "forjin0..tile_size{foriin0..tile_size{self.scratch.x[index]"),
-        ("results stored at the row's offset plus the column, same nesting", "forjin0..tile_size{leto=self.tile_sizes.pixel_offset(tile.add(Vector2::new(0,j)));foriin0..tile_size{self.image[(o+i)]=out[index].into();(index+=1);}}"),
+        ("x sample = corner.x + i", nest, "self.scratch.x[index]=((tile.corner[0]+{i})asf32);"),
+        ("y sample = corner.y + j", nest, "self.scratch.y[index]=((tile.corner[1]+{j})asf32);"),
+        ("z sample = the slice height", nest, "self.scratch.z[index]=self.z;"),
+        ("the row's offset is that of the tile's row j", nest[:1], "leto=self.tile_sizes.pixel_offset(tile.add(Vector2::new(0,{j})));"),
+        ("results stored at the row's offset plus the column, same nesting", nest, "self.image[(o+{i})]=out[index].into();"),
     ]
-    for what, f in need:
-        if f in t:
+    fills = []
+    for what, loops, f in need:
+        hits = A.stmts_in_loops(body, loops, f)
+        if hits:
             rule.ok("pixel samples: %s" % what, file=PIX, line=fn["ln"])
+            fills.append(hits[0])
         else:
-            rule.bad("samples|pixel|%s" % what[:24], "per-pixel evaluation: %s (`%s` not found)" % (what, f[:60]), A.where(fn))
+            rule.bad("samples|pixel|%s" % what[:24], "per-pixel evaluation: %s (`%s` not found under rows j / columns i of 0..tile_size)" % (what, f[:60]), A.where(fn))
+    # the flat index advances once per pixel in the loop that fills and in the loop that stores
+    bumps = [s_ for s_, b in A.stmts_in_loops(body, nest, "(index+=1);") if not (A.enclosing_conds(body, s_) or [])]
+    inner_loops = {id(b[-1][2]) for _s, b in fills if len(b) == 2}
+    bump_loops = {id(A.enclosing_binders(body, s_)[-1][2]) for s_ in bumps}
+    if fills and inner_loops <= bump_loops:
+        rule.ok("pixel samples: rows outer, columns inner; the flat index advances once per pixel in both loops")
+    else:
+        rule.bad("samples|pixel|rows outer, columns inne", "per-pixel evaluation: every (row, column) loop that fills or stores by `index` must advance it exactly once per pixel", A.where(fn))
     calls = [c for c in A.find(fn["body"], "MethodCall") if c["method"] == "eval_with_transform_and_vars"]
     if len(calls) == 1 and [txt(a) for a in calls[0]["args"]] == ["shape.f_tape(&mutself.tape_storage)", "&self.scratch.x", "&self.scratch.y", "&self.scratch.z", "&self.transform", "self.vars"]:
         rule.ok("pixel samples: evaluated as (x, y, z) through the view transform")
